@@ -8,6 +8,8 @@ import GqlVerif.Proofs.C01VariantSpread
 import GqlVerif.Proofs.C01VariantSpreadE
 import GqlVerif.Proofs.C01VariantSpreadG
 import GqlVerif.Proofs.C01RustSpread
+import GqlVerif.Proofs.C01DenyTreeClass
+import GqlVerif.Proofs.C01DenyFragWitness
 open GqlVerif.C01
 #print axioms accepts_mono
 #print axioms conforming_int_accepted
@@ -140,3 +142,24 @@ open GqlVerif.C01
 #print axioms GqlVerif.C01.E2E.ns_roundtrip_rust
 #print axioms GqlVerif.C01.E2E.ns2_roundtrip_rust
 #print axioms GqlVerif.C01.E2E.ns_items_differ
+-- the end-to-end theorems under deny: a denied field is omitted from the types while the server still sends it (Proofs/C01Deny*.lean)
+#print axioms GqlVerif.C01.Deny.topEnvD_of_module
+#print axioms GqlVerif.C01.Deny.treeD_accepts
+#print axioms GqlVerif.C01.Deny.treeD_lossless
+#print axioms GqlVerif.C01.Deny.treeD_roundtrip
+#print axioms GqlVerif.C01.Deny.treeD_roundtrip_of_erased
+#print axioms GqlVerif.C01.Deny.treeOpR_unfold
+#print axioms GqlVerif.C01.Deny.treeOpR_of_treeOp
+#print axioms GqlVerif.C01.Deny.treeR_accepts
+#print axioms GqlVerif.C01.Deny.treeR_lossless
+#print axioms GqlVerif.C01.Deny.treeR_roundtrip
+#print axioms GqlVerif.C01.Deny.fragD_accepts
+#print axioms GqlVerif.C01.Deny.fragD_lossless
+#print axioms GqlVerif.C01.Deny.fragD_roundtrip
+#print axioms GqlVerif.C01.Deny.fragOpD_envOK
+#print axioms GqlVerif.C01.Deny.wd_roundtrip
+#print axioms GqlVerif.C01.Deny.wd_roundtrip_dirty
+#print axioms GqlVerif.C01.Deny.fd_roundtrip
+#print axioms GqlVerif.C01.Deny.lone_spread_matters
+#print axioms GqlVerif.C01.Deny.sibling_key_covered
+#print axioms GqlVerif.C01.Deny.tn_condition_artifact
